@@ -413,6 +413,39 @@ pub fn work_c12(ctx: &Ctx, rep: &mut Report) {
         }
         c12_history(&h, rep);
     }
+    // very long single calls (implementations that work through a call in blocks): multi-byte
+    // characters at every alignment relative to powers of two of the byte offset
+    {
+        let lens = [65_536usize, 65_600, 131_072, 200_000, 262_144 + 7];
+        let glyphs = ["\u{e9}", "\u{4e16}", "\u{1f600}", "\u{4e16}\u{e9}x"];
+        let total = lens.len() * glyphs.len() * 4;
+        let mut done = 0u64;
+        for u in ctx.units(total) {
+            let len = lens[u % lens.len()];
+            let g = glyphs[(u / lens.len()) % glyphs.len()];
+            let pad = u / (lens.len() * glyphs.len());
+            let mut t = "a".repeat(pad);
+            let mut k = 0usize;
+            while t.len() < len + 40 {
+                t.push_str(g);
+                k += 1;
+                if k % 97 == 0 {
+                    t.push_str("\r\n");
+                }
+                if k % 1013 == 0 {
+                    t.push_str("\x1b[3");
+                    t.push_str(g); // a non-ASCII character inside a sequence, too
+                    t.push_str("\x1b[1;32m");
+                }
+            }
+            let mut h = History::new(9, 3, None);
+            h.calls.push(Call::FeedStr(t));
+            h.meta.push(("chunkseed".into(), 1 + u * 7919));
+            c12_history(&h, rep);
+            done += 1;
+        }
+        rep.count("single_calls_longer_than_64_KiB", done);
+    }
     // every subset of cut points for short inputs
     let shorts: Vec<&str> = vec![
         "ab\x1b[1;31mc", "\x1b[2;3Hxy", "a\x1b]0;t\x07b", "\x1b[38:2:1:2:3mz", "abcd\r\nef", "\x1b[?1049hq\x1b[?1049l", "\u{9b}2;2r\x1bMx", "\x1bP1$q\x1b\\k",
